@@ -66,7 +66,11 @@ pub fn as_string_literal_content(text: &str) -> String {
     text.escape_debug().to_string()
 }
 
+/// Type names the generated code itself relies on: a struct of that name would capture the generated code's own uses
+/// of it (and the yaserde derive macros recognise `Option`, `Vec` and `String` by their spelling).
+const RESERVED_TYPE_NAMES: [&str; 6] = ["Self", "Option", "Vec", "String", "Default", "Rc"];
+
 pub fn xml_name_to_rust_name(xml_name: &str) -> String {
     let rust_name = to_pascal_case(xml_name);
-    if rust_name == "Self" { "Self_".to_string() } else { rust_name }
+    if RESERVED_TYPE_NAMES.contains(&rust_name.as_str()) { format!("{rust_name}_") } else { rust_name }
 }
